@@ -900,3 +900,170 @@ func edgeDominates(from *ssa.BasicBlock, idx int, b *ssa.BasicBlock) bool {
 	}
 	return true
 }
+
+// ---- exhaustive enum switches (A6 idiom) ----------------------------------------------------------
+
+// enumConsts returns the values of the package-level constants declared with named type t.
+func enumConsts(t *types.Named) map[int64]bool {
+	out := map[int64]bool{}
+	if t == nil || t.Obj().Pkg() == nil {
+		return out
+	}
+	sc := t.Obj().Pkg().Scope()
+	for _, n := range sc.Names() {
+		if k, ok := sc.Lookup(n).(*types.Const); ok && types.Identical(k.Type(), t) {
+			if v, exact := constant.Int64Val(constant.ToInt(k.Val())); exact {
+				out[v] = true
+			}
+		}
+	}
+	return out
+}
+
+// enumTest: block b ends in `if x == k` with x of a named integer type with declared constants.
+func enumTest(b *ssa.BasicBlock) (x ssa.Value, k int64, t *types.Named, ok bool) {
+	iff, isIf := condOf(b)
+	if !isIf {
+		return nil, 0, nil, false
+	}
+	bo, isB := iff.Cond.(*ssa.BinOp)
+	if !isB || bo.Op != token.EQL {
+		return nil, 0, nil, false
+	}
+	xv, kv := bo.X, bo.Y
+	if _, isC := xv.(*ssa.Const); isC {
+		xv, kv = kv, xv
+	}
+	kc, isC := kv.(*ssa.Const)
+	if !isC || kc.Value == nil || kc.Value.Kind() != constant.Int {
+		return nil, 0, nil, false
+	}
+	n, isN := xv.Type().(*types.Named)
+	if !isN {
+		return nil, 0, nil, false
+	}
+	if _, isBasic := n.Underlying().(*types.Basic); !isBasic {
+		return nil, 0, nil, false
+	}
+	val, _ := constant.Int64Val(kc.Value)
+	return xv, val, n, true
+}
+
+// infeasibleEdges returns the fall-through edges of exhaustive enum switches: an if-chain that
+// compares the same value (same SSA value or same access path of a field) against every declared
+// constant of its named type; the last 'else' cannot execute as long as only declared constants
+// are ever stored (checked separately where it matters).
+func infeasibleEdges(fn *ssa.Function) map[*ssa.BasicBlock]int {
+	out := map[*ssa.BasicBlock]int{}
+	for _, b := range fn.Blocks {
+		x, k, t, ok := enumTest(b)
+		if !ok {
+			continue
+		}
+		all := enumConsts(t)
+		if len(all) == 0 {
+			continue
+		}
+		seen := map[int64]bool{k: true}
+		cur := b
+		for len(cur.Preds) == 1 {
+			p := cur.Preds[0]
+			px, pk, pt, pok := enumTest(p)
+			if !pok || pt != t || len(p.Succs) != 2 || p.Succs[1] != cur {
+				break
+			}
+			if px != x && accessPath(px) != accessPath(x) {
+				break
+			}
+			seen[pk] = true
+			cur = p
+		}
+		covered := true
+		for v := range all {
+			if !seen[v] {
+				covered = false
+			}
+		}
+		if covered {
+			out[b] = 1
+		}
+	}
+	return out
+}
+
+// walkF is walk with an edge filter: skip(b, i) suppresses the edge b -> b.Succs[i].
+func walkF(start ssa.Instruction, inclusive bool, skip map[*ssa.BasicBlock]int, visit func(ssa.Instruction) bool) {
+	seen := map[*ssa.BasicBlock]bool{}
+	var run func(b *ssa.BasicBlock, i int)
+	run = func(b *ssa.BasicBlock, i int) {
+		for ; i < len(b.Instrs); i++ {
+			if visit(b.Instrs[i]) {
+				return
+			}
+		}
+		for si, s := range b.Succs {
+			if idx, ok := skip[b]; ok && idx == si {
+				continue
+			}
+			if !seen[s] {
+				seen[s] = true
+				run(s, 0)
+			}
+		}
+	}
+	i := instrIndex(start)
+	if !inclusive {
+		i++
+	}
+	run(start.Block(), i)
+}
+
+// reachAvoidingF is reachAvoiding with an edge filter.
+func reachAvoidingF(start ssa.Instruction, inclusive bool, skip map[*ssa.BasicBlock]int, target, barrier func(ssa.Instruction) bool) ssa.Instruction {
+	var found ssa.Instruction
+	walkF(start, inclusive, skip, func(in ssa.Instruction) bool {
+		if found != nil {
+			return true
+		}
+		if barrier != nil && barrier(in) {
+			return true
+		}
+		if target(in) {
+			found = in
+			return true
+		}
+		return false
+	})
+	return found
+}
+
+// appendedValues: for a call of the builtin append(s, elems...) returns the appended element
+// values when they are given individually (the varargs array is materialised by go/ssa), the
+// slice being appended to, and ok.
+func appendedValues(v ssa.Value) (base ssa.Value, elems []ssa.Value, spread ssa.Value, ok bool) {
+	call, isCall := v.(*ssa.Call)
+	if !isCall || !isBuiltin(call, "append") || len(call.Call.Args) != 2 {
+		return nil, nil, nil, false
+	}
+	base = call.Call.Args[0]
+	sl, isSlice := call.Call.Args[1].(*ssa.Slice)
+	if !isSlice {
+		return base, nil, call.Call.Args[1], true
+	}
+	al, isAlloc := sl.X.(*ssa.Alloc)
+	if !isAlloc || al.Referrers() == nil {
+		return base, nil, call.Call.Args[1], true
+	}
+	for _, r := range *al.Referrers() {
+		ia, isIA := r.(*ssa.IndexAddr)
+		if !isIA || ia.Referrers() == nil {
+			continue
+		}
+		for _, u := range *ia.Referrers() {
+			if st, isSt := u.(*ssa.Store); isSt && st.Addr == ssa.Value(ia) {
+				elems = append(elems, st.Val)
+			}
+		}
+	}
+	return base, elems, nil, true
+}
